@@ -1,6 +1,22 @@
 """Per-property manifest metadata.  bin/mkmanifest renders MANIFEST.json from this."""
 
 CHECKS = {
+    "C14": dict(
+        text="spec/NetInfo.tla is the contract over one write / read run: the initial security state sent to the NCP carries exactly the "
+             "supplied network key, sequence number, trust-centre address and link key (hashed form from version 5 on) with presence "
+             "flags matching the supplied fields; the NCP store after the write holds the settings; reading back returns PAN ID, extended "
+             "PAN ID, channel, mask, update ID, network key + sequence, link key (+ hashed form), link-key table as a set of (key, "
+             "partner), and - where the version can store them - the network-key frame counter (5+) and the child table (9+); counters "
+             "are written before forming, keys / children / security before forming. NetInfoMC shows the contract satisfiable by the "
+             "intended procedure for versions 4..14 and that lost keys / late counters are caught. The real write_network_info + "
+             "load_network_info(load_devices=True) run for every version 4..14 x NCP capability against the simulated NCP store with "
+             "generated settings (12 quick / 300 thorough per version); TLC judges each run (Trace_NetInfo).",
+        design_ref="3/C14",
+        note="Trusted: compat shim, simulated NCP store (ncp_netinfo.py) answering ~30 commands in every version's result shapes. From "
+             "version 5 on only the well-known link key round-trips (stated limitation of bellows). One defect found and fixed (v14 "
+             "link-key read-back).",
+        technique="TLA+ contract specification evaluated by TLC on recorded write/read runs of the implementation (trace validation) + TLC satisfiability check of the intended procedure",
+    ),
     "C20": dict(
         text="spec/ThreadProxy.tla states what a proxied call does at once (refused for a non-callable attribute, direct call on the owner's "
              "own loop, dropped without running when the owner's loop is closed, otherwise queued with a plain call returning nothing) "
